@@ -375,6 +375,93 @@ class ForwardChains(object):
         return judge(context() + items, False, 'C03|forward-chains|%s' % case['set'])
 
 
+class NestedRuns(object):
+    name = 'generator-runs-inside-one-another'
+    describe = ('two compilers with code generator objects of their own; the text filter of the first one, at its k-th call (every k), '
+                'lets the second compiler translate another edition of the module - same symbol names, other status / access / units / '
+                'revisions - from start to end: both documents equal those of the runs made alone (every switch point between the two '
+                'runs that a callback can produce)')
+
+    EDITIONS = [
+        ('DEMO-MIB DEFINITIONS ::= BEGIN\nIMPORTS MODULE-IDENTITY, OBJECT-TYPE, Integer32, enterprises FROM SNMPv2-SMI;\n'
+         'demoMib MODULE-IDENTITY LAST-UPDATED "202001010000Z" ORGANIZATION "o" CONTACT-INFO "c" DESCRIPTION "today" '
+         'REVISION "202001010000Z" DESCRIPTION "second" REVISION "201001010000Z" DESCRIPTION "first" ::= { enterprises 5 }\n'
+         'demoCount OBJECT-TYPE SYNTAX Integer32 UNITS "packets" MAX-ACCESS read-only STATUS current DESCRIPTION "counts" ::= { demoMib 1 }\n'
+         'demoTime OBJECT-TYPE SYNTAX Integer32 UNITS "seconds" MAX-ACCESS read-write STATUS current DESCRIPTION "time" ::= { demoMib 2 }\n'
+         'demoOnly OBJECT-TYPE SYNTAX Integer32 MAX-ACCESS read-only STATUS current DESCRIPTION "only today" ::= { demoMib 3 }\nEND\n'),
+        ('DEMO-MIB DEFINITIONS ::= BEGIN\nIMPORTS MODULE-IDENTITY, OBJECT-TYPE, Integer32, enterprises FROM SNMPv2-SMI;\n'
+         'demoMib MODULE-IDENTITY LAST-UPDATED "201001010000Z" ORGANIZATION "o" CONTACT-INFO "c" DESCRIPTION "then" '
+         'REVISION "201001010000Z" DESCRIPTION "first" ::= { enterprises 5 }\n'
+         'demoTime OBJECT-TYPE SYNTAX Integer32 UNITS "ticks" MAX-ACCESS read-only STATUS obsolete DESCRIPTION "time then" ::= { demoMib 2 }\n'
+         'demoCount OBJECT-TYPE SYNTAX Integer32 UNITS "frames" MAX-ACCESS read-write STATUS deprecated DESCRIPTION "counts then" ::= { demoMib 1 }\n'
+         'END\n')]
+
+    def blocks(self, tier):
+        return [{'outer': 0}, {'outer': 1}]
+
+    def cases(self, block, tier):
+        for gt_outer in (True, False):
+            for gt_inner in (True, False):
+                for k in range(14):
+                    yield {'outer': block['outer'], 'k': k, 'gto': gt_outer, 'gti': gt_inner}
+
+    def one(self, edition, gen_texts, text_filter=None):
+        w = env.CaptureWriter()
+        parser = env.fresh_parser('smiV2') if text_filter is None else env.shared_parser('smiV2')
+        parser.reset()
+        comp = env.MibCompiler(parser, env.JsonCodeGen(), w)
+        texts = env.base_texts()
+        texts['DEMO-MIB'] = self.EDITIONS[edition]
+        comp.addSources(env.DictReader(texts))
+        comp.addSearchers(env.StubSearcher(*env.BASE_NAMES))
+        opts = {'genTexts': gen_texts}
+        if text_filter is not None:
+            opts['textFilter'] = text_filter
+        res = comp.compile('DEMO-MIB', **opts)
+        doc = dict((n, d) for n, d, _ in w.written).get('DEMO-MIB')
+        return str(res.get('DEMO-MIB')), json.loads(doc) if doc else None
+
+    def run_case(self, case):
+        import re
+        calls = [0]
+        inner = []
+
+        def flt(symbol, text):
+            if calls[0] == case['k']:
+                inner.append(self.one(1 - case['outer'], case['gti']))
+            calls[0] += 1
+            return re.sub(r'\s+', ' ', text)
+
+        def plain(symbol, text):
+            return re.sub(r'\s+', ' ', text)
+        sig = 'C03|nested-runs|outer-texts=%d|inner-texts=%d' % (case['gto'], case['gti'])
+        try:
+            got_outer = self.one(case['outer'], case['gto'], flt)
+        except Exception as exc:
+            return 'escaped', [('%s|exception-escapes|%s' % (sig, type(exc).__name__), repr(exc)[:300])], 3
+        if not inner:
+            return 'filter-called-%d-times' % calls[0], [], 1     # fewer than k calls in this configuration
+        want_outer = self.one(case['outer'], case['gto'], plain)
+        want_inner = self.one(1 - case['outer'], case['gti'])
+        vs = []
+
+        def strip(r):
+            st, doc = r
+            if doc:
+                doc = dict(doc)
+                doc.pop('meta', None)
+            return st, doc
+        if strip(got_outer) != strip(want_outer):
+            diff = [k for k in (want_outer[1] or {}) if (got_outer[1] or {}).get(k) != want_outer[1][k] and k != 'meta']
+            vs.append(('%s|outer-document-differs-from-the-run-alone' % sig, 'switch at filter call %d: status %s (alone %s), differing entries %r' % (
+                case['k'], got_outer[0], want_outer[0], diff[:5])))
+        if strip(inner[0]) != strip(want_inner):
+            diff = [k for k in (want_inner[1] or {}) if (inner[0][1] or {}).get(k) != want_inner[1][k] and k != 'meta']
+            vs.append(('%s|inner-document-differs-from-the-run-alone' % sig, 'switch at filter call %d: status %s (alone %s), differing entries %r' % (
+                case['k'], inner[0][0], want_inner[0], diff[:5])))
+        return 'ok' if not vs else 'bad', vs, 3
+
+
 class SharedNames(object):
     name = 'names-shared-with-another-module'
     describe = ('OTHER-MIB declares a table (table, row, SEQUENCE type, two columns); TEST-MIB, compiled by the same call before or '
@@ -466,4 +553,4 @@ def _option_histories():
         prefix = 'C03'
     return OptionHistories()
 
-FAMILIES = [Sequences(), Names(), Parts(), ReservedKeys(), TableOrders(), ForwardChains(), SharedNames(), MetTwice(), _option_histories()]
+FAMILIES = [Sequences(), Names(), Parts(), ReservedKeys(), TableOrders(), ForwardChains(), NestedRuns(), SharedNames(), MetTwice(), _option_histories()]
